@@ -159,4 +159,75 @@ theorem louvainFit_terminates (kind : Kind) (res tolOpt tolAgg : Rat) (htolOpt :
   exact louvainLoop_terminates res tolOpt tolAgg htolOpt htolAgg nAgg coreFuel (lv.n + 1) 0 lv (arange lv.n) []
     hok hcf (Nat.le_refl _) h'
 
+/-! ### the loop as compiled now (the kernel bounds its passes: `optimizeCoreCapped`, /repo 244a467f) -/
+
+/-- **The outer loop of `Louvain.fit` as compiled** (`louvainLoopCapped`: the kernel returns after at most `n + 1`
+    passes whatever the arithmetic does, so no budget for it appears) never exhausts its `n + 1` rounds when
+    `tol_aggregation ≥ 0`: the returned increase is still exactly the change of `Q` (`optimizeCoreCapped_spec`), so a
+    round that continues has moved a node out of its singleton and the aggregated graph is strictly smaller. -/
+theorem louvainLoopCapped_terminates (res tolOpt tolAgg : Rat) (htolAgg : 0 ≤ tolAgg) (nAgg : Int) :
+    ∀ (fuel count : Nat) (lv : Level) (memb : List Nat) (incs : List Rat), LevelOK lv → lv.n + 1 ≤ fuel →
+      louvainLoopCapped res tolOpt tolAgg nAgg fuel count lv memb incs ≠ none := by
+  intro fuel
+  induction fuel with
+  | zero => intro count lv memb incs _ hf; omega
+  | succ f ih =>
+    intro count lv memb incs hlv hf
+    simp only [louvainLoopCapped]
+    cases hopt : louvainOptimizeCapped lv res tolOpt (arange lv.n) with
+    | none => simp [louvainOptimizeCapped] at hopt
+    | some r =>
+      obtain ⟨labels1, inc⟩ := r
+      simp only
+      split
+      · simp
+      · rename_i hstop
+        simp only [Bool.or_eq_true, decide_eq_true_eq, not_or] at hstop
+        obtain ⟨⟨-, hinc⟩, -⟩ := hstop
+        have hspec := optimizeCoreCapped_spec lv.graph hlv.graphOK res tolOpt lv.n
+          { labels := arange lv.n, outCl := lv.outW, inCl := lv.inW, cw := tab lv.n fun _ => 0 }
+          (coreInv_singletons lv hlv)
+        have heq : optimizeCoreCapped lv.graph res tolOpt
+            { labels := arange lv.n, outCl := lv.outW, inCl := lv.inW, cw := tab lv.n fun _ => 0 } = (labels1, inc) := by
+          simpa [louvainOptimizeCapped] using hopt
+        rw [heq] at hspec
+        obtain ⟨s1, s2, s3, s4, s5⟩ := hspec
+        obtain ⟨g1, g2, g3, g4, -⟩ := louvain_level_capped lv hlv res tolOpt labels1 inc hopt
+        have hpos : 0 < inc := lt_of_le_of_lt htolAgg (not_le.mp hinc)
+        have hne : labels1 ≠ arange lv.n := by
+          intro e
+          simp only at s1
+          rw [e] at s1
+          have : inc = 0 := by rw [s1]; ring
+          linarith
+        obtain ⟨hlen, hcase⟩ := joinSteps_missing hlv.graphOK s3
+        rcases hcase with e | ⟨x, hx, hxn⟩
+        · exact absurd e hne
+        · have hlt : ∀ y ∈ labels1, y < lv.n := by
+            intro y hy
+            obtain ⟨k, hk, rfl⟩ := List.getElem_of_mem hy
+            have := s5 k (by rw [← s4]; exact hk)
+            simpa [labOf, List.getD_eq_getElem?_getD, List.getElem?_eq_getElem hk] using this
+          have hsmall : (aggregate (uniqueInverse labels1) lv).n < lv.n :=
+            nLabels_uniqueInverse_lt labels1 lv.n hlt x hx hxn
+          exact ih _ _ _ _ g4 (by omega)
+
+/-- **`Louvain.fit` as compiled terminates** (over ℚ): once the input is accepted, for every `tol_optimization`
+    (the pass cap makes the kernel total) and every `tol_aggregation ≥ 0` the model returns. -/
+theorem louvainFitCapped_terminates (kind : Kind) (res tolOpt tolAgg : Rat) (htolAgg : 0 ≤ tolAgg) (nAgg : Int)
+    (nRow nCol nnz : Nat) (B : Nat → Nat → Rat) (fb : Bool) :
+    louvainFitCapped kind res tolOpt tolAgg nAgg nRow nCol nnz B fb ≠ .ok none := by
+  unfold louvainFitCapped louvainFitAdj
+  cases hpre : preProcessAdj kind (kindAdj kind nRow nCol B fb).1 (kindAdj kind nRow nCol B fb).2 nnz with
+  | error e => simp
+  | ok lv =>
+    obtain ⟨w, _, hlv⟩ := preProcessAdj_ok _ _ _ _ lv hpre
+    have hok : LevelOK lv := by rw [hlv]; exact symLevel_levelOK _ _ _ _
+    simp only
+    intro h
+    have h' : louvainLoopCapped res tolOpt tolAgg nAgg (lv.n + 1) 0 lv (arange lv.n) [] = none := by
+      injection h
+    exact louvainLoopCapped_terminates res tolOpt tolAgg htolAgg nAgg (lv.n + 1) 0 lv (arange lv.n) [] hok
+      (Nat.le_refl _) h'
+
 end SkNet.Terminate
